@@ -1,2 +1,6 @@
 //! Generators shared by several properties
 pub mod dpkt;
+pub mod canon;
+pub mod cpkt4;
+pub mod cpkt5;
+pub mod dpkts;
